@@ -19,7 +19,9 @@
 (* of the request: stale, i.e. Visibility, or mixed, i.e. Consistent) cannot return: the log is    *)
 (* rejected at that line.  Verdicts that do not depend on the placement (panic, status, markers    *)
 (* of different versions, a no-op apply that replaced the entity) set `viol`; the contract's       *)
-(* invariants are evaluated on every state of the observed execution.                              *)
+(* invariants are evaluated on every state of the observed execution.  The stress requests are     *)
+(* all of class "n" and every pipeline update changes filters and resilience section ("both"):    *)
+(* the configuration dimensions are covered by the schedule replays.                              *)
 EXTENDS HotUpdate, Json, TLC, IOUtils
 
 TLog == ndJsonDeserialize(IOEnv.VERIF_TRACE)
@@ -78,7 +80,7 @@ TSkip ==
 
 TInv(p) ==
     /\ IsEvent("r.inv") /\ TLog[l].p = p /\ ~TLog[l].skip
-    /\ ReqStart(p, TLog[l].tg, TLog[l].ip)
+    /\ ReqStart(p, TLog[l].tg, TLog[l].ip, "n")
     /\ want' = [want EXCEPT ![p] = TLog[l].w]
     /\ UNCHANGED <<tu, viol>>
 
@@ -101,7 +103,7 @@ TRet(p) ==
     /\ rq' = [rq EXCEPT ![p] = NoReq]
     /\ last' = [a |-> "done", r |-> p, st |-> rq[p].st]
     /\ want' = [want EXCEPT ![p] = NoWant]
-    /\ UNCHANGED <<muxInst, sgen, ns, pobj, dead, u, cnt, tu>>
+    /\ UNCHANGED <<muxInst, sgen, ns, pobj, dead, lim, u, cnt, tu>>
 
 (* ---- the updater ---- *)
 UInv ==
@@ -113,7 +115,7 @@ UInv ==
 UStart ==
     /\ tu.op # "none" /\ ~tu.started
     /\ CASE tu.op = "srv" -> SrvBuild(tu.kind) /\ u'.new = tu.g
-         [] tu.op = "pip" -> PipBegin(tu.o) /\ last'.ver = tu.g
+         [] tu.op = "pip" -> PipBegin(tu.o, "both") /\ last'.ver = tu.g
          [] tu.op = "same" -> ApplySame(tu.o)
          [] tu.op = "create" -> CreateInit(tu.o) /\ last'.ver = tu.g
          [] tu.op = "delete" -> DeleteRemove(tu.o)
@@ -138,9 +140,9 @@ URet ==
 TReset ==
     /\ IsEvent("reset")
     /\ muxInst' = 1 /\ sgen' = <<[rv |-> 1, ov |-> 1]>>
-    /\ pobj' = <<NewObj(Routed[1], 1, 1, TRUE), NewObj(Routed[2], 1, 2, TRUE)>>
+    /\ pobj' = <<NewObj(Routed[1], 1, 1, 1, 1, TRUE), NewObj(Routed[2], 1, 1, 1, 2, TRUE)>>
     /\ ns' = [p \in Pipes |-> IF p = Routed[1] THEN 1 ELSE IF p = Routed[2] THEN 2 ELSE 0]
-    /\ dead' = {} /\ u' = Idle
+    /\ dead' = {} /\ lim' = [spent |-> {}, off |-> {}] /\ u' = Idle
     /\ rq' = [r \in Reqs |-> NoReq]
     /\ cnt' = [srv |-> 0, pip |-> 0, other |-> 0, same |-> 0, req |-> [r \in Reqs |-> 0]]
     /\ last' = [a |-> "init"]
